@@ -151,8 +151,10 @@ def ev_play(tid, ob: Obj, seat: int, c: int, via: str = 'by_player',
                          'card': c, 'via': via, 'res': res}
     if fork:
         e['fork'] = True
-        if ob.proj() != before:
+        now = ob.proj()
+        if now != before:
             e['res'] = 'fork-changed-original'
+            e['changed'] = sorted(k_ for k_ in now if now[k_] != before.get(k_))
     if res == 'raises' and after == before:
         e['same'] = True
         e['msg'] = why
@@ -528,13 +530,22 @@ PACK12 = [0, 5, 12, 13, 18, 25, 26, 31, 38, 39, 44, 51]   # 4 suits x 3 ranks
 PACK16 = [s * 13 + x for s in range(4) for x in (0, 4, 8, 12)]  # 4 x 4
 
 
-def owners(clause: str) -> set:
+def owners(clause: str, event: Optional[Dict[str, Any]] = None) -> set:
     """Which properties a reject clause speaks about."""
     parts = dict(kv.split('=', 1) for kv in clause.split(':') if '=' in kv)
     ev = clause.split(':', 1)[0]
     fails = set(parts.get('fail', '').split(','))
     own = set()
     mode = parts.get('o', '')
+    if event is not None and event.get('res') == 'fork-changed-original':
+        # a play on a COPY changed the object itself: judged by what changed
+        ch = set(event.get('changed', []))
+        if ch & {'leader', 'active', 'tricknum', 'taken', 'hist', 'done', 'decl', 'dummy', 'trump'}:
+            own.add('C04')
+        if ch & {'hands', 'used', 'own', 'dum', 'dumset'} or not ch:
+            own.add('C05')
+        if mode == 'obs':
+            own.add('C11')
     if ev in ('avail', 'choose'):
         own.add('C06')
     if ev == 'agree' or mode == 'obs':
@@ -746,8 +757,8 @@ def run_into(chk: Check, pid: str, tier: str) -> None:
     rejects = validate_traces(chk, 'PlayTrace', events,
                               'real playing-phase objects vs Play!PStep',
                               heap='4g')
-    mine = [x for x in rejects if pid in owners(x.clause)]
-    others = [x for x in rejects if pid not in owners(x.clause)]
+    mine = [x for x in rejects if pid in owners(x.clause, x.event)]
+    others = [x for x in rejects if pid not in owners(x.clause, x.event)]
     if others:
         chk.note(f'{len(others)} rejected traces concern other play properties '
                  f'only ({sorted({p for x in others for p in owners(x.clause)})}); '
